@@ -111,7 +111,8 @@ def oracle_run(args):
     for s in tr:
         rho = s["density_matrix"]
         herm = float(np.max(np.abs(rho - rho.conj().T)))
-        if herm > 1e-9 or abs(np.trace(rho) - 1) > 1e-9:
+        size = max(1.0, float(np.max(np.abs(rho))))       # (an unstable RK4 run grows: the exact invariants are judged relative to |rho|)
+        if herm > 1e-9 * size or abs(np.trace(rho) - 1) > 1e-9 * size:
             problems.append("t=%r: Hermiticity error %.3g, trace %r" % (s["time"], herm, np.trace(rho)))
             break
         ev = np.linalg.eigvalsh(0.5 * (rho + rho.conj().T))
